@@ -344,6 +344,14 @@ def main():
                     seqs.append(concatenate([seqs[int(p[0])] for p in pairs], axis=0))
                 elif o == 'drop':
                     seqs[int(f[1])] = None
+                elif o == 'extbad':
+                    # extend(good + [an element of 1 row with another trailing shape] + [extra-1 further rows])
+                    els = arrs(f[4], f[2])
+                    els.append(np.zeros((1, cs[0] + 3) + cs[1:], dtype=dt(f[2])))
+                    if int(f[5]) > 1:
+                        els.append(arr('.'.join(['5'] * (int(f[5]) - 1)), f[2]))
+                    seqs[int(f[1])].extend(els if f[3] == '1' else (e for e in els))
+                    del els
                 elif o == 'appbad':
                     # a non-empty element whose trailing shape does not match (nor broadcast)
                     if len(f) > 2 and f[2] == 'b':       # a shape NumPy would broadcast silently: (1, 1, ...)
